@@ -2,7 +2,7 @@
 (* Head-to-head margins, dominating tiers (Smith decomposition) written     *)
 (* from the statement of C06, plus the implementation-shaped definition     *)
 (* (group by size of the reachable set in the beats-or-ties digraph).       *)
-EXTENDS Scoring
+EXTENDS Transfers
 
 PosOf(r, a) == CHOOSE i \in 1..Len(r) : a \in r[i]
 (* ballot r ranks a strictly above b: a listed, and b unlisted or in a later position *)
